@@ -5,6 +5,7 @@ import FFS.Driver.Eth
 import FFS.Driver.Abi
 import FFS.Driver.AbiCodec
 import FFS.Driver.AbiEntry
+import FFS.Driver.Eip712
 open Lean FFS FFS.Driver
 
 def dispatch (op : String) (j : Json) : Json :=
@@ -33,6 +34,9 @@ def dispatch (op : String) (j : Json) : Json :=
   | "abi.calldata" => opAbiCalldata j
   | "abi.event" => opAbiEvent j
   | "abi.error" => opAbiError j
+  | "eip712.encode" => opEip712Encode j
+  | "eip712.spec" => opEip712Spec j
+  | "eip712.doc" => opEip712Doc j
   | _ => Json.mkObj [("bad", "op")]
 
 partial def loop (hin : IO.FS.Stream) (hout : IO.FS.Stream) : IO Unit := do
